@@ -2115,6 +2115,19 @@ static int dfs_copy(vnaproperty_t **destination, const vnaproperty_t *source)
 }
 
 /*
+ * _vnaproperty_delete_tree: free a whole tree and clear the root
+ *   @rootptr: address of root property pointer
+ *
+ * Unlike vnaproperty_delete(rootptr, "."), this doesn't format and parse a
+ * descriptor, so it cannot fail for lack of memory: for use in destructors.
+ */
+void _vnaproperty_delete_tree(vnaproperty_t **rootptr)
+{
+    vnaproperty_free(*rootptr);
+    *rootptr = NULL;
+}
+
+/*
  * vnaproperty_copy: copy a subtree
  *   @destination: address of node where copy is placed
  *   @source: subtree to copy
